@@ -2,6 +2,7 @@
 the result is plain JSON and execution never looks at the generator again."""
 import copy
 import os
+import random
 
 from dtsim import render
 from dtsim.core import Chooser
@@ -162,6 +163,10 @@ class Project(object):
         # two kinds may live in one file: the class file is then also named as a file of the function kind
         self.shared = ch.chance("shared", 0.1) and "." not in self.names["function"] and "." not in self.names["class"]
         self.shared_truth = focus == "C10" and ch.chance("shared_truth", 0.06)
+        if focus == "C09":
+            # the module of the truth function is also where the class is to live: that class is a target like any other (A1-A3).
+            # Side stream of the same seed: every other decision of a C09 run stays what it was before this knob existed
+            self.shared_truth = ch._rec("shared_truth", random.Random("%s|shared_truth" % ch.seed).random() < 0.08)
 
     def desc(self):
         return self.versions[self.cur]
@@ -663,6 +668,15 @@ def gen_op(proj, ch, lab):
     if ch.chance(lab + ".classes_only", 0.6):
         entries = [e for e in entries if e != "gamma"] or ["Alpha"]
     mapping = "{%s}" % ", ".join("%r: %s" % (e, e) for e in entries)
+    # "dictionary/mapping/2-tuple collection" (gen's own help text): the table need not be a dict
+    # drawn from a side stream of the same seed, so that every other decision of the run stays what it was before this knob existed
+    kinds = ["dict", "dict", "dict", "ordered", "proxy", "userdict", "chainmap", "pairs_tuple", "pairs_list"]
+    container = kinds[ch._rec(lab + ".container", random.Random("%s|%s|container" % (ch.seed, lab)).randrange(len(kinds)))]
+    pairs = ", ".join("(%r, %s)" % (e, e) for e in entries)
+    mapping = {"dict": mapping, "ordered": "__import__('collections').OrderedDict([%s])" % pairs,
+               "proxy": "__import__('types').MappingProxyType(%s)" % mapping, "userdict": "__import__('collections').UserDict(%s)" % mapping,
+               "chainmap": "__import__('collections').ChainMap(%s)" % mapping,
+               "pairs_tuple": "(%s,)" % pairs, "pairs_list": "[%s]" % pairs}[container]
     nimp = ch.int(lab + ".nimp", 0, 2)
     imports = "\n".join(["import os", "from collections import OrderedDict"][:nimp])
     mod = "genmod_%s" % lab
